@@ -480,6 +480,21 @@ Definition valid_url_b (names : list str) (dflt : nat) (t : list (list aseg)) (a
 Definition path_denotes (names : list str) (dflt : nat) (bsegs : list str) (a : nat) (segs : list str) (path : str) : Prop :=
   path_segments path = bsegs ++ prefix_of names dflt a ++ segs.
 
+(** A URL may also carry an explicit prefix for the DEFAULT locale ("/en/about" with default en): the
+    router accepts it (match_nested tries every locale name, get_locale_from_path reads en) and does not
+    redirect.  [path_denotes_explicit]: the path spells base, the name of locale [a] (default or not),
+    then [segs].  Leaving such a URL must rewrite that prefix like any other; the result is in
+    canonical form (no prefix for the default locale).  No readability condition is needed: the
+    prefix is there.  The [locale] argument is [Some a] (what get_locale_from_path reads). *)
+Definition path_denotes_explicit (names : list str) (bsegs : list str) (a : nat) (segs : list str) (path : str) : Prop :=
+  path_segments path = bsegs ++ name_of names a :: segs.
+Definition valid_url_explicit (names : list str) (t : list (list aseg)) (a b : nat) (segs : list str) : Prop :=
+  names_ok names = true /\ atab_ok (length names) t = true /\ (a < length names)%nat /\ (b < length names)%nat /\
+  forallb seg_ok segs = true.
+Definition valid_url_explicit_b (names : list str) (t : list (list aseg)) (a b : nat) (segs : list str) : bool :=
+  names_ok names && atab_ok (length names) t && Nat.ltb a (length names) && Nat.ltb b (length names)
+  && forallb seg_ok segs.
+
 (** histories under first-match semantics: the segments expected after every switch, and the
     validity of every intermediate URL *)
 Fixpoint expected_history (n : nat) (t : list (list aseg)) (a : nat) (segs : list str) (ls : list nat)
